@@ -14,7 +14,7 @@ REQUIRED_COUNTERS = ["fix_runs", "converged_checked"]
 ASSUMPTIONS = [
     "documents on which fix itself ends in an error (tokenization, plugin error, fix conflict) are C01/C07/C15 matters and skipped (counted)",
 ]
-LIMIT = {"Z1": 15291, "Z3": 12000, "Z4": 6000, "Z7": 30000}
+LIMIT = {"Z1": 15291, "Z3": 12000, "Z4": 6000, "Z7": 30000, "Z11": 20000, "Z12": 30000}
 
 
 def universe_hash():
@@ -22,7 +22,7 @@ def universe_hash():
 
 
 def plan(tier, seed, complete=False):
-    items, zinfo = PL.plan_docs(tier, seed, complete, quick={"Z1": 550, "Z3": 350, "Z4": 200, "Z7": 600}, z1_all=False, limit=LIMIT, zones=("Z1", "Z3", "Z4", "Z7"), force_b=True,
+    items, zinfo = PL.plan_docs(tier, seed, complete, quick={"Z1": 550, "Z3": 350, "Z4": 200, "Z7": 600, "Z11": 350, "Z12": 450}, z1_all=False, limit=LIMIT, zones=("Z1", "Z3", "Z4", "Z7", "Z11", "Z12"), force_b=True, check="C09",
                                    ranges={"Z1": [(0, 10194), (20388, 25485)]})
     return {
         "items": items, "zones": zinfo, "exhaustive": False,
